@@ -6,6 +6,8 @@ package server
 // processes (GOMAXPROCS=1, asyncpreemptoff) execute histories.
 
 import (
+	"sync/atomic"
+	"syscall"
 	"bufio"
 	"crypto/sha256"
 	"encoding/hex"
@@ -189,7 +191,24 @@ type simWorkerProc struct {
 	resF   *os.File
 	stderr *strings.Builder
 	mu     sync.Mutex
+	hung   bool
 }
+
+func simHangLimit() time.Duration {
+	if v := os.Getenv("VERIF_SIM_HANG_LIMIT"); v != "" {
+		if d, err := time.ParseDuration(v); err == nil && d > 0 {
+			return d
+		}
+	}
+	if simHangSeen.Load() {
+		return 30 * time.Second // once a hang has been seen, its siblings and the confirmation runs need not wait as long
+	}
+	return 90 * time.Second
+}
+
+var simHangSeen atomic.Bool
+
+const simHangMark = "VERIF-HANG: the worker gave no result within the limit; goroutine dump follows\n"
 
 func simStartWorker() (*simWorkerProc, error) {
 	jr, jw, err := os.Pipe()
@@ -237,9 +256,34 @@ func (p *simWorkerProc) run(job simJob) (simResult, error) {
 	if _, err := p.jobs.Write(b); err != nil {
 		return simResult{}, err
 	}
-	line, err := p.res.ReadBytes('\n')
-	if err != nil {
-		return simResult{}, err
+	// watchdog: a daemon dead-locked on a mutex never lets synctest.Wait return (a goroutine blocked on a
+	// sync.Mutex is not "durably blocked"), so the worker would sit there for ever. No answer within the
+	// limit => SIGQUIT (the Go runtime dumps every goroutine to stderr and exits) and the job is a hang.
+	type rd struct {
+		line []byte
+		err  error
+	}
+	ch := make(chan rd, 1)
+	go func() {
+		l, e := p.res.ReadBytes('\n')
+		ch <- rd{l, e}
+	}()
+	var line []byte
+	select {
+	case x := <-ch:
+		if x.err != nil {
+			return simResult{}, x.err
+		}
+		line = x.line
+	case <-time.After(simHangLimit()):
+		p.hung = true
+		simHangSeen.Store(true)
+		p.cmd.Process.Signal(syscall.SIGQUIT)
+		select {
+		case <-ch:
+		case <-time.After(20 * time.Second):
+		}
+		return simResult{}, fmt.Errorf("no result within %s", simHangLimit())
 	}
 	var r simResult
 	if err := json.Unmarshal(line, &r); err != nil {
@@ -254,8 +298,12 @@ func (p *simWorkerProc) kill() string {
 	p.cmd.Wait()
 	p.resF.Close()
 	s := p.stderr.String()
-	if len(s) > 6000 {
-		s = s[len(s)-6000:]
+	lim := 6000
+	if p.hung {
+		lim = 200000
+	}
+	if len(s) > lim {
+		s = s[len(s)-lim:]
 	}
 	return s
 }
@@ -307,10 +355,14 @@ func (sp *simPool) runAll(jobs []simJob, fn func(simOutcome)) {
 						}
 						break
 					}
+					hung := p.hung
 					tail := p.kill()
 					p = nil
 					crashes++
-					if crashes >= 3 {
+					if hung {
+						tail = simHangMark + tail
+					}
+					if crashes >= 3 || (hung && crashes >= 2) {
 						out.crash = tail
 						break
 					}
@@ -445,6 +497,12 @@ func simExplore(t *testing.T, r *vr.Report, cfg simExploreCfg) {
 			}
 		}
 		completed = depth
+		if simHangSeen.Load() {
+			// every history that reaches a dead-locked daemon costs the watchdog limit in real time:
+			// report what was found and stop this exploration at the level where it appeared
+			r.Cap(fmt.Sprintf("%s: a hang was found at depth %d; deeper levels were not explored", label, depth))
+			break
+		}
 		t.Logf("%s depth %d: transitions=%d new states=%d total states=%d elapsed=%s", label, depth, len(jobs), len(frontier), r.States, time.Since(start).Round(time.Millisecond))
 	}
 	r.Bounds[label+".depth_completed"] = completed
@@ -467,6 +525,40 @@ func simTail(s string, n int) string {
 // simCrashSite extracts the first gobgp frame of a panic trace as a stable signature.
 func simCrashSite(trace string) string {
 	lines := strings.Split(trace, "\n")
+	if strings.HasPrefix(trace, simHangMark) {
+		// goroutines of the bubble blocked in a lock acquisition: name the first frame of the daemon
+		set := map[string]bool{}
+		for i, l := range lines {
+			if !strings.HasPrefix(l, "goroutine ") || !strings.Contains(l, "synctest bubble") {
+				continue
+			}
+			if !(strings.Contains(l, "sync.Mutex.Lock") || strings.Contains(l, "sync.RWMutex") || strings.Contains(l, "semacquire")) {
+				continue
+			}
+			for k := i + 1; k < len(lines) && k < i+16; k += 2 {
+				g := strings.TrimSpace(lines[k])
+				if j := strings.LastIndex(g, "("); j > 0 {
+					g = g[:j]
+				}
+				if g != "" && !strings.HasPrefix(g, "runtime.") && !strings.HasPrefix(g, "internal/") && !strings.HasPrefix(g, "sync.") && !strings.HasPrefix(g, "time.") {
+					set[g] = true
+					break
+				}
+			}
+		}
+		var fs []string
+		for f := range set {
+			if i := strings.LastIndex(f, "/"); i >= 0 {
+				f = f[i+1:]
+			}
+			fs = append(fs, f)
+		}
+		sort.Strings(fs)
+		if len(fs) > 4 {
+			fs = fs[:4]
+		}
+		return "hang:blocked-on-lock-in:" + strings.Join(fs, "+")
+	}
 	// synctest's end-of-bubble verdict: goroutines started in the bubble are still blocked
 	if strings.Contains(trace, "blocked goroutines remain") {
 		set := map[string]bool{}
@@ -561,6 +653,10 @@ func simConfirm(t *testing.T, r *vr.Report, n int) {
 			continue
 		}
 		hits := 0
+		n := n
+		if strings.Contains(v.Key, ":hang:") && n > 2 {
+			n = 2 // each confirmation of a hang costs the watchdog limit in real time
+		}
 		for i := 0; i < n; i++ {
 			rr := vr.Start(t, r.Property, r.Part)
 			simReplayOne(t, rr, rp)
